@@ -29,13 +29,13 @@ fn fire(kind: TriggerKind, value: u64) {
 
 /// Called for every node, with the calling worker's own node counter (the one the
 /// engine polls the cancellation flag on).
-pub fn node(local_count: usize) {
+pub fn node(local_count: usize, token: u64) {
     let task = world::current_task();
     let (total, over_bound, over_cap) = match world::try_with(|r| {
         r.probe.nodes_total += 1;
         r.nodes_since_iteration += 1;
         let mut over_bound = false;
-        if r.cancelled_now {
+        if r.cancelled_token == Some(token) {
             // per worker slot (a slot stands for one pool thread across iterations)
             let slot = r.task_slot.get(task).copied().unwrap_or(u32::MAX);
             let slot = if slot == u32::MAX { 0 } else { slot as usize };
@@ -88,11 +88,20 @@ pub fn root_write(_max_depth: usize, has_move: bool) {
 }
 
 /// The cancellation flag is being set.
-pub fn cancel_signalled() {
+/// A new cancellation token is being created (one per search).
+pub fn new_token() -> u64 {
+    world::try_with(|r| {
+        r.tokens_created += 1;
+        r.tokens_created
+    })
+    .unwrap_or(0)
+}
+
+pub fn cancel_signalled(token: u64) {
     let _ = world::try_with(|r| {
         r.probe.cancels += 1;
-        if !r.cancelled_now {
-            r.cancelled_now = true;
+        if r.cancelled_token != Some(token) {
+            r.cancelled_token = Some(token);
             r.probe.post_cancel_nodes = 0;
             for c in r.post_cancel_by_slot.iter_mut() {
                 *c = 0;
@@ -107,7 +116,6 @@ pub fn cancel_signalled() {
 /// World side: a search has returned; post-cancel accounting starts afresh.
 pub fn search_returned() {
     let _ = world::try_with(|r| {
-        r.cancelled_now = false;
         r.probe.post_cancel_nodes = 0;
     });
 }
